@@ -610,6 +610,9 @@ func checkHist(ca *checkArgs) int {
 		inconclusive("workload did not reach: %v", unreached)
 	}
 	if code == 0 {
+		if nm := keysWithPrefix(total.stats.C, "new_method_driven_generically/"); len(nm) > 0 {
+			fmt.Printf("NOTE: exported methods outside the operation table were driven through reflection under the generic oracles only (no reference model): %v\n", nm)
+		}
 		if nm := keysWithPrefix(total.stats.C, "unexercised_new_method/"); len(nm) > 0 {
 			fmt.Printf("NOTE: exported methods that are not in the operation table were NOT exercised: %v\n", nm)
 		}
@@ -947,6 +950,7 @@ func writeEvidence(ca *checkArgs, plan *histPlan, b *batch, perBuild map[string]
 		"unreached_required":                  unreached,
 		"runs_ended_early_by_violation_of_other_property": countPrefix(b.stats.C, "runs_ended_by_foreign_violation/"),
 		"known_findings_hit":                              len(b.known),
+		"exported_methods_driven_generically":             keysWithPrefix(b.stats.C, "new_method_driven_generically/"),
 		"exported_methods_not_in_operation_table":         keysWithPrefix(b.stats.C, "unexercised_new_method/"),
 		"replay_files":                                    replayFiles,
 		"components": map[string]interface{}{
